@@ -887,6 +887,7 @@ class ExtendedZoneProcessor: public ZoneProcessor {
       }
 
       mYear = year;
+      mIsFilled = false;
       mNumMatches = 0; // clear cache
       mTransitionStorage.init();
 
